@@ -1281,3 +1281,103 @@ def c11_rankdata_search(rp, seed):
         if bad:
             return r2, msg
     return None
+
+
+# ---------------------------------------------------------------- C17
+def _measured_relerr(fn, x):
+    from pyvc import hiprec as H
+    from decimal import Decimal as D
+    W = wl_common()
+    got = getattr(W, fn)(x)
+    ref = H.Phi(D(x)) if fn == "phi_major" else H.phi(D(x))
+    return got, float(H.relerr(got, ref)), ref
+
+
+@checker("c17_cdf")
+def c17_cdf(rp):
+    x = float(num(rp["x"]))
+    got, err, ref = _measured_relerr(rp["fn"], x)
+    return err > rp.get("bound", 1e-12), f"{rp['fn']}({x!r}) = {got!r}, 50-digit reference {float(ref)!r}: relative error {err:.3e} (bound {rp.get('bound', 1e-12)})"
+
+
+@searcher("c17_cdf")
+def c17_cdf_search(rp, seed):
+    """the propagated bound is a worst case: walk from the solver's x towards both tails
+    until the *measured* error exceeds the bound"""
+    x0 = float(num(rp["x"]))
+    cands = [x0] + [x0 - 0.25 * k for k in range(1, 140)] + [x0 + 0.25 * k for k in range(1, 140)]
+    for x in cands:
+        if -37.5 <= x <= 38:
+            r2 = dict(rp, x=enc(x))
+            bad, msg = c17_cdf(r2)
+            if bad:
+                return r2, msg
+    return None
+
+
+@checker("c17_fn")
+def c17_fn(rp):
+    from pyvc import hiprec as H
+    from decimal import Decimal as D
+    W = wl_common()
+    x, t = float(num(rp["x"])), float(num(rp["t"]))
+    fn = rp["fn"]
+    clause = rp.get("clause")
+    eps = sys.float_info.epsilon
+    if fn == "vt" and clause == "odd":
+        s = W.vt(x, t) + W.vt(-x, t)
+        return abs(s) > 2 * t * (1 + 1e-9) + 1e-15, f"vt({x!r},{t!r}) + vt({-x!r},{t!r}) = {s!r}, 2t = {2 * t!r}"
+    if fn == "vt" and clause == "order":
+        a, b, c = W.v(x, t), W.vt(x, t), -W.v(-x, t)
+        return not (a >= b - 1e-9 * (1 + abs(a)) and b >= c - 1e-9 * (1 + abs(c))), f"v, vt, -v(-x) at ({x!r},{t!r}) = {a!r}, {b!r}, {c!r}"
+    got = getattr(W, fn)(x, t)
+    if not math.isfinite(got):
+        return True, f"{fn}({x!r},{t!r}) = {got!r}"
+    if clause == "canary":
+        bad = {"v": got > 1, "w": got > 0.5, "vt": got < 0, "wt": got < 0.5}[fn]
+        return bad, f"{fn}({x!r},{t!r}) = {got!r} (canary)"
+    y = D(x) - D(t)
+    if fn == "v":
+        if got <= 0 and not (got == 0 and x - t > 37):
+            return True, f"v({x!r},{t!r}) = {got!r} is not positive"
+        if -37 < x - t < 37:
+            ref = H.V(y)
+            tol = D("1e-6") if W.phi_major(x - t) >= eps else D("0.02")
+            if H.relerr(got, ref) > tol:
+                return True, f"v({x!r},{t!r}) = {got!r}, V = {float(ref)!r} (relative error {float(H.relerr(got, ref)):.3e} > {tol})"
+    elif fn == "w":
+        if not (-1e-14 / t <= got <= 1 + 1e-14 / t):
+            return True, f"w({x!r},{t!r}) = {got!r} outside [0,1]"
+        if -37 < x - t < 37:
+            ref = H.W(y)
+            tol = D("1e-6") if W.phi_major(x - t) >= eps else D("0.02")
+            if H.relerr(got, ref) > tol and abs(D(got) - ref) > D("1e-12"):
+                return True, f"w({x!r},{t!r}) = {got!r}, W = {float(ref)!r}"
+    elif fn == "vt":
+        if abs(x) < 37:
+            ref = H.Vt(D(x), D(t))
+            if abs(D(got) - ref) > 2 * D(t) * (1 + D("1e-6")) + D("1e-12"):
+                return True, f"vt({x!r},{t!r}) = {got!r}, V~ = {float(ref)!r} (off by more than 2t)"
+    elif fn == "wt":
+        if not (-1e-14 / t <= got <= 1 + 1e-14 / t):
+            return True, f"wt({x!r},{t!r}) = {got!r} outside [0,1]"
+    return False, f"{fn}({x!r},{t!r}) = {got!r} within the property's bounds"
+
+
+@searcher("c17_fn")
+def c17_fn_search(rp, seed):
+    rnd = random.Random(seed)
+    x0 = float(num(rp["x"]))
+    for k in range(4000):
+        x = rnd.choice([x0, -x0]) + rnd.uniform(-1, 1) if k % 2 else rnd.uniform(-40, 40)
+        if k % 7 == 0:
+            x = rnd.choice([-8.13, -8.12, -8.126, 0.0, -0.0, 8.12]) + rnd.choice([0, 1e-9, -1e-9, 1e-3])
+        t = 10 ** rnd.uniform(-8, -2)
+        r2 = dict(rp, x=enc(x), t=enc(t))
+        try:
+            bad, msg = c17_fn(r2)
+        except Exception as e:  # noqa: BLE001
+            continue
+        if bad:
+            return r2, msg
+    return None
